@@ -62,3 +62,18 @@ Theorem next_indices_fresh : forall cfg t0 evs,
   aget Nat.eqb (s_ntasks s) (s_tasks s) = None /\ aget Nat.eqb (s_nops s) (s_ops s) = None.
 Proof. exact next_indices_fresh_all. Qed.
 Print Assumptions next_indices_fresh.
+
+(* The monitor's state predicates of C03 hold of every observed reachable state of the model:
+   c03_dump -- every live cacheable task is registered in the in-flight map under its digest, the entry names this very
+   task, and no two live cacheable tasks share a digest ([no_phantom_sync]: no Synchronize uses the placeholder worker
+   id; needed only to know that a registered operation is listed by its task) ... *)
+Theorem c03_dump_holds : forall cfg t0 evs, no_phantom_sync evs ->
+  c03_dump (observe (fst (run (init cfg t0) evs))) = ""%string.
+Proof. exact c03_dump_ok. Qed.
+Print Assumptions c03_dump_holds.
+
+(* ... c03_waited -- an operation a client is waiting on has no abandonment time-out pending (calls numbered freshly). *)
+Theorem c03_waited_holds : forall cfg t0 evs, fresh_calls [] evs ->
+  c03_waited (observe (fst (run (init cfg t0) evs))) = ""%string.
+Proof. exact c03_waited_ok. Qed.
+Print Assumptions c03_waited_holds.
